@@ -695,6 +695,8 @@ func init() {
 			"the runtime seam is tied to go1.23's bucket maps: tools/rtseam.sh verifies its anchors and the check reports exhaustive:false when they are missing",
 			"maps above 27 entries (more than 8 buckets) are not enumerated; hash seeds are pinned so bucket placement is reproducible",
 			"date 'now' and time zones are excluded (documented exceptions); TZ=UTC",
+			"the keys of one map have distinct printed forms (two NaN keys, or one instant in time.UTC and in FixedZone(\"UTC\", 0), cannot be told apart without their addresses)",
+			"values that contain themselves through a slice or map (not through a pointer), channels and funcs are not plain data and are not printed",
 		},
 		Setup: func(string) {
 			mapSeamPinHash(true)
